@@ -73,7 +73,12 @@ impl TryFrom<InitialBalances> for RuntimeBalances {
 
     fn try_from(initial_balances: InitialBalances) -> Result<Self, ValidityError> {
         let mut balances: BTreeMap<_, _> = initial_balances.non_retryable.into();
-        if let Some(retryable_amount) = initial_balances.retryable {
+        // An empty retryable amount doesn't need a base asset entry of its own. Together
+        // with `max_inputs` inputs of other assets it would not fit into the balance table.
+        if let Some(retryable_amount) = initial_balances.retryable
+            && (retryable_amount.amount > 0
+                || balances.contains_key(&retryable_amount.base_asset_id))
+        {
             let entry = balances.entry(retryable_amount.base_asset_id).or_default();
             *entry = entry
                 .checked_add(retryable_amount.amount)
